@@ -3,6 +3,7 @@ import Gp.Lemmas.ReasmInv
   Layer B of C09: the loop of `checkOverlap` (six cases) keeps the queue sorted, disjoint and
   consistent with the sender stream, and separates it from the new packet.
 -/
+set_option linter.unusedSimpArgs false
 namespace Gp.Reasm
 open Gp
 
@@ -113,12 +114,12 @@ theorem ovLoop_spec (S : List UInt8) (b start : Int) (bytes0 : List UInt8) (hAt 
     simp only [ovLoop]
     split
     · -- case 5
-      rename_i h5; simp only [I_diff, I_add] at h5
+      rename_i h5; try simp only [I_diff, I_add, gt_iff_lt, ge_iff_le] at h5
       exact push cur bytes hb (Int.le_refl _) rfl ⟨hcAt, hcne⟩ (fun _ _ => by omega) (fun _ h => h) (fun _ h => h)
-    rename_i h5; simp only [I_diff, I_add] at h5
+    rename_i h5; try simp only [I_diff, I_add, gt_iff_lt, ge_iff_le] at h5
     split
     · -- case 1: stop
-      rename_i h1; simp only [I_diff, I_add] at h1
+      rename_i h1; try simp only [I_diff, I_add, gt_iff_lt, ge_iff_le] at h1
       refine ⟨_, rfl, ?_⟩
       have hs : Sorted ((cur :: rest).reverse ++ back) := sorted_rev_append hrev hsb hcross
       exact {
@@ -143,19 +144,19 @@ theorem ovLoop_spec (S : List UInt8) (b start : Int) (bytes0 : List UInt8) (hAt 
           · exact h2 p hp
         keep := fun _ h => h
         count := by simp }
-    rename_i h1; simp only [I_diff, I_add] at h1
+    rename_i h1; try simp only [I_diff, I_add, gt_iff_lt, ge_iff_le] at h1
     split
     · -- case 3: drop
-      rename_i h3; simp only [I_diff, I_add] at h3
+      rename_i h3; try simp only [I_diff, I_add, gt_iff_lt, ge_iff_le] at h3
       obtain ⟨r, hr, hp⟩ := ih back bytes (dropped + 1) hb hrevc.2 hsb hcrossr hokrest hokb hsep
       exact ⟨r, hr, hp.dropCur⟩
-    rename_i h3; simp only [I_diff, I_add] at h3
+    rename_i h3; try simp only [I_diff, I_add, gt_iff_lt, ge_iff_le] at h3
     split
     · -- case 2: trim cur's end, stop
-      rename_i h2; simp only [I_diff, I_add] at h2
+      rename_i h2; try simp only [I_diff, I_add, gt_iff_lt, ge_iff_le] at h2
       have hnp : ¬ (-(cur.seq - start) < 0 ∨ -(cur.seq - start) > ↑cur.bytes.length) := by omega
       split
-      · rename_i hp; simp only [I_diff, I_add] at hp; exact absurd hp hnp
+      · rename_i hp; try simp only [I_diff, I_add, gt_iff_lt, ge_iff_le] at hp; exact absurd hp hnp
       refine ⟨_, rfl, ?_⟩
       have hn : (-(cur.seq - start)).toNat ≤ cur.bytes.length := by omega
       have hn0 : 0 < (-(cur.seq - start)).toNat := by omega
@@ -199,14 +200,14 @@ theorem ovLoop_spec (S : List UInt8) (b start : Int) (bytes0 : List UInt8) (hAt 
           · exact h2' p hp
         keep := fun _ h => h
         count := by simp }
-    rename_i h2; simp only [I_diff, I_add] at h2
+    rename_i h2; try simp only [I_diff, I_add, gt_iff_lt, ge_iff_le] at h2
     split
     · -- case 4: trim cur's start
-      rename_i h4; simp only [I_diff, I_add] at h4
+      rename_i h4; try simp only [I_diff, I_add, gt_iff_lt, ge_iff_le] at h4
       have hnp : ¬ (-(cur.seq - (start + ↑bytes0.length)) < 0 ∨
           -(cur.seq - (start + ↑bytes0.length)) > ↑cur.bytes.length) := by omega
       split
-      · rename_i hp; simp only [I_diff, I_add] at hp; exact absurd hp hnp
+      · rename_i hp; try simp only [I_diff, I_add, gt_iff_lt, ge_iff_le] at hp; exact absurd hp hnp
       have hn : (-(cur.seq - (start + ↑bytes0.length))).toNat ≤ cur.bytes.length := by omega
       let c' : Page := { cur with bytes := cur.bytes.drop (-(cur.seq - (start + ↑bytes0.length))).toNat,
                                   seq := cur.seq + -(cur.seq - (start + ↑bytes0.length)) }
@@ -220,29 +221,146 @@ theorem ovLoop_spec (S : List UInt8) (b start : Int) (bytes0 : List UInt8) (hAt 
       exact push c' bytes hb (by simp only [c']; omega) (by simp only [pend, hc'len]; simp only [c']; omega)
         ⟨hat', by intro e; have := congrArg List.length e; simp only [List.length_nil] at this; omega⟩
         (fun _ _ => by simp only [c']; omega) (fun _ h => h) (fun _ h => h)
-    rename_i h4; simp only [I_diff, I_add] at h4
+    rename_i h4; try simp only [I_diff, I_add, gt_iff_lt, ge_iff_le] at h4
     split
     · -- case 6: the packet lies inside cur
-      simp only [if_neg h6]
+      rename_i h6; try simp only [I_diff, I_add, gt_iff_lt, ge_iff_le] at h6
       have hoff : ¬ (-(cur.seq - start) < 0 ∨ -(cur.seq - start) + ↑bytes.length > ↑cur.bytes.length) := by
         rcases hb with rfl | rfl
         · omega
         · simp only [List.length_nil]; omega
       split
-      · rename_i hp; simp only [I_diff, I_add] at hp; exact absurd hp hoff
+      · rename_i hp; try simp only [I_diff, I_add, gt_iff_lt, ge_iff_le] at hp; exact absurd hp hoff
       have hov : overwrite cur.bytes (-(cur.seq - start)).toNat bytes = cur.bytes := by
         rcases hb with rfl | rfl
         · have := At.overwrite hcAt hAt (by omega) (by omega)
           have e : (start - cur.seq).toNat = (-(cur.seq - start)).toNat := by congr 1; omega
           rw [e] at this; exact this
         · simp [overwrite]
+      try simp only [I_diff, I_add]
       rw [hov]
       refine push cur [] (Or.inr rfl) (Int.le_refl _) rfl ⟨hcAt, hcne⟩ ?_ ?_ ?_
       · intro h0 h; exact absurd h.symm h0
       · intro h0 h; exact absurd h.symm h0
       · intro h; omega
     · -- no overlap: cur starts exactly at the packet's end
-      simp only [if_pos h6]
+      rename_i h6; try simp only [I_diff, I_add, gt_iff_lt, ge_iff_le] at h6
       exact push cur bytes hb (Int.le_refl _) rfl ⟨hcAt, hcne⟩ (fun _ _ => by omega) (fun _ h => h) (fun _ h => h)
+
+end Gp.Reasm
+
+namespace Gp.Reasm
+open Gp
+
+/-- invariant of the out-of-order queue; `ns` = nextSeq (-1: not started) -/
+def QueueOK (S : List UInt8) (b ns : Int) (q : List Page) : Prop :=
+  Sorted q ∧ (∀ p ∈ q, PageOK S b p) ∧ (ns ≠ -1 → ∀ p ∈ q, ns < p.seq)
+
+theorem sorted_insert {front np back : List Page} {s e : Int}
+    (h1 : Sorted (front ++ back)) (h2 : Sorted np)
+    (hf : ∀ p ∈ front, pend p ≤ s) (hn : ∀ p ∈ np, s ≤ p.seq ∧ pend p ≤ e) (hb : ∀ q ∈ back, e ≤ q.seq) :
+    Sorted (front ++ np ++ back) := by
+  unfold Sorted at *
+  rw [List.pairwise_append] at h1
+  rw [List.append_assoc, List.pairwise_append, List.pairwise_append]
+  refine ⟨h1.1, ⟨h2, h1.2.1, ?_⟩, ?_⟩
+  · intro p hp q hq; have := (hn p hp).2; have := hb q hq; omega
+  · intro p hp q hq
+    rcases List.mem_append.mp hq with hq | hq
+    · have := hf p hp; have := (hn q hq).1; omega
+    · exact h1.2.2 p hp q hq
+
+/-- What `checkOverlap` guarantees in offset space. -/
+structure CheckPost (S : List UInt8) (b : Int) (h : Half) (used : Int) (queue : Bool) (start : Int) (bytes : List UInt8)
+    (res : Half × Int × List UInt8) : Prop where
+  same : res.1 = { h with queue := res.1.queue, pages := res.1.pages }
+  sorted : Sorted res.1.queue
+  ok : ∀ p ∈ res.1.queue, PageOK S b p
+  lower : ∀ L : Int, (∀ p ∈ h.queue, L < p.seq) → (queue = true → L < start) → ∀ p ∈ res.1.queue, L < p.seq
+  live : queue = false → (∀ p ∈ h.queue, start ≤ p.seq) →
+         (res.2.2 = bytes ∨ res.2.2 = []) ∧ ∀ p ∈ res.1.queue, start + res.2.2.length ≤ p.seq
+  liveStrict : queue = false → (∀ p ∈ h.queue, start < p.seq) → res.2.2 = bytes
+  count : res.1.pages - h.pages = (res.1.queue.length : Int) - h.queue.length ∧
+          res.2.1 - used = (res.1.queue.length : Int) - h.queue.length
+
+theorem checkOverlap_spec (S : List UInt8) (b : Int) (h : Half) (used : Int) (queue : Bool) (start : Int)
+    (bytes : List UInt8) (ts : Int) (fin : Bool)
+    (hAt : At S b start bytes) (hs : Sorted h.queue) (hok : ∀ p ∈ h.queue, PageOK S b p) :
+    Res.Ok (checkOverlap I h used queue start bytes ts fin) (CheckPost S b h used queue start bytes) := by
+  have hrevp : h.queue.reverse.Pairwise (fun p q => pend q ≤ p.seq) := List.pairwise_reverse.mpr hs
+  obtain ⟨r, hr, hp⟩ := ovLoop_spec S b start bytes hAt h.queue.reverse [] bytes 0 (Or.inl rfl) hrevp
+    List.Pairwise.nil (fun _ _ _ hq => by simp at hq) (fun p hp => hok p (List.mem_reverse.mp hp))
+    (fun _ hq => by simp at hq) (fun _ _ _ hq => by simp at hq)
+  have hr' : ovLoop I start (I.add start ↑bytes.length) bytes h.queue.reverse [] 0 = .ok r := hr
+  unfold checkOverlap
+  rw [hr']
+  have hcount := hp.count
+  simp only [List.length_reverse, List.length_nil, Nat.add_zero, Nat.zero_add] at hcount
+  have hlow : ∀ L : Int, (∀ p ∈ h.queue, L < p.seq) → ∀ p ∈ r.front ++ r.back, L < p.seq :=
+    fun L hL => hp.lower L (fun p hp' => hL p (List.mem_reverse.mp hp')) (fun _ hq => by simp at hq)
+  simp only
+  split
+  · -- the packet is inserted
+    rename_i hc
+    have hq : queue = true := hc.2
+    have hne : r.bytes ≠ [] := by intro e; rw [e] at hc; simp at hc
+    have hrb : r.bytes = bytes := by rcases hp.hbytes with e | e; exact e; exact absurd e hne
+    have hb0 : bytes ≠ [] := hrb ▸ hne
+    obtain ⟨hfront, hback⟩ := hp.sep hb0 hrb
+    rw [hrb]
+    have hch := splitPages_chain S b start bytes ts fin hAt
+    have hne' := splitPages_nonempty start bytes ts fin hb0
+    refine Res.Ok.intro ?_
+    exact {
+      same := rfl
+      sorted := sorted_insert hp.sorted hch.sorted hfront
+        (fun p hp' => ⟨(hch.mem p hp').1, (hch.mem p hp').2.1⟩) hback
+      ok := by
+        intro p hp'
+        simp only [List.mem_append] at hp'
+        rcases hp' with (hp' | hp') | hp'
+        · exact hp.ok p (List.mem_append_left _ hp')
+        · exact ⟨(hch.mem p hp').2.2, hne' p hp'⟩
+        · exact hp.ok p (List.mem_append_right _ hp')
+      lower := by
+        intro L hL hst p hp'
+        simp only [List.mem_append] at hp'
+        rcases hp' with (hp' | hp') | hp'
+        · exact hlow L hL p (List.mem_append_left _ hp')
+        · have := (hch.mem p hp').1; have := hst hq; omega
+        · exact hlow L hL p (List.mem_append_right _ hp')
+      live := by intro hq'; rw [hq] at hq'; cases hq'
+      liveStrict := by intro hq'; rw [hq] at hq'; cases hq'
+      count := by
+        simp only [List.length_append]
+        constructor <;> omega }
+  · rename_i hc
+    refine Res.Ok.intro ?_
+    exact {
+      same := rfl
+      sorted := hp.sorted
+      ok := hp.ok
+      lower := fun L hL _ => hlow L hL
+      live := by
+        intro hq hst
+        refine ⟨hp.hbytes, ?_⟩
+        intro p hp'
+        have hge : start - 1 < p.seq := hlow (start - 1) (fun q hq' => by have := hst q hq'; omega) p hp'
+        show start + ↑r.bytes.length ≤ p.seq
+        by_cases hb0 : r.bytes = []
+        · simp only [hb0, List.length_nil]; omega
+        · have hrb : r.bytes = bytes := by rcases hp.hbytes with e | e; exact e; exact absurd e hb0
+          have hb1 : bytes ≠ [] := hrb ▸ hb0
+          rw [hrb]
+          rcases List.mem_append.mp hp' with hp' | hp'
+          · have h1 := (hp.sep hb1 hrb).1 p hp'
+            have h3 := (hp.ok p (List.mem_append_left _ hp')).2
+            have : 0 < p.bytes.length := List.length_pos_iff.mpr h3
+            simp only [pend] at h1; omega
+          · exact (hp.sep hb1 hrb).2 p hp'
+      liveStrict := fun _ hst => hp.keep (fun p hp' => hst p (List.mem_reverse.mp hp')) rfl
+      count := by
+        simp only [List.length_append]
+        constructor <;> omega }
 
 end Gp.Reasm
